@@ -9,6 +9,11 @@ CTXS_DEFAULT = [('v7-pmsa-r', 'off'), ('v6-pmsa-sec', 'off'), ('v7-vmsa-sec', 'o
                 ('v7-vmsa-virt', 'off')]
 
 
+CODE_ADDRS_ARM = [0x10004, 0x10008, 0x1000C, 0x0, 0x4, 0x8, 0xFFFFF000, 0xFFFFFFF0, 0xFFFFFFF8, 0xFFFFFFFC, 0x7FF8, 0x11FF8]
+CODE_ADDRS_THUMB = [0x10002, 0x10006, 0x1000A, 0x10004, 0x0, 0x2, 0x4, 0x6, 0xFFFFF002, 0xFFFFFFF0, 0xFFFFFFF6, 0xFFFFFFFA,
+                    0xFFFFFFFC, 0xFFFFFFFE, 0x7FFA, 0x11FFA]
+
+
 def family_rows(prefixes):
     from vf.ref.step import tables
     out = []
@@ -25,7 +30,55 @@ def plan_rows(pid, prefixes, tier, seed, per_row_quick, per_row_thorough, nshard
     return [dict(kind='rows', seed=seed, shard=i, of=n, per_row=per) for i in range(n)]
 
 
-def run_rows(pid, spec, prefixes, ctxs=CTXS_DEFAULT, regs_fn=None, prep_kw=None, after=None, keyfn=None, itpos_fn=None):
+BOUNDARY_TARGETS = [0xFFFFFFFC, 0xFFFFFFFC, 0xFFFFFFFC, 0xFFFFFFF8, 0xFFFFFFF8, 0xFFFFFFFE, 0xFFFFFFFF, 0xFFFFFFFD, 0x0, 0x4, 0x7FFC,
+                    0x7FFE, 0x7FF8, 0x7FFF, 0x11FFC, 0x11FF8, 0x11FFE, 0xFFFFF000, 0xFFFC, 0xFFFFFFF4]
+
+
+def solve_address(ctx, rng, desc, kind, w, prep_args):
+    """move the first data access of the prepared instruction onto a boundary (last word of the address space, end of a
+    RAM device, address 0): one reference step tells where the access goes; the base register - or, for PC-relative
+    (literal) forms, the placement of the instruction itself - is shifted by the difference.  Returns the new desc."""
+    from vf import observe, scen
+    from vf.ref import step as RS
+    cpu = ctx.cpu
+    verdict, ref, info = RS.step(observe.snapshot(cpu), ctx.cfg)
+    tr = getattr(ref, 'translations', None)
+    if verdict != 'ok' or not tr:
+        return desc
+    ops = info.get('ops') or {}
+    delta = (rng.choice(BOUNDARY_TARGETS) - tr[0][0]) & 0xFFFFFFFF
+    n = ops.get('n')
+    try:
+        n = int(n) if n is not None else None
+    except (TypeError, ValueError):
+        n = None
+    rowname = info.get('row') or ''
+    if n is None and rowname.startswith(('push', 'pop', 'srs', 'rfe')) and 'n' not in ops:
+        n = 13 if rowname.startswith(('push', 'pop')) else None
+        if n is None:
+            return desc
+    if n is not None and n != 15:
+        if n in (ops.get('m'), ops.get('t'), ops.get('t2')) or (n == 13 and kind != 'arm' and delta % 4):
+            return desc
+        v = (cpu.registers.get(n) + delta) & 0xFFFFFFFF
+        cpu.registers.set(n, v)
+        desc['regs'][n] = '%#x' % v
+        desc['address_solved'] = 'base'
+        return desc
+    if delta % 4:
+        return desc
+    code = (int(desc.get('code', '0x10000'), 16) + delta) & 0xFFFFFFFF
+    regs = [int(x, 16) for x in desc['regs']]
+    kw = dict(prep_args)
+    kw['code'] = code
+    kw['regs'] = regs
+    d2 = scen.prepare(ctx, rng, kind, w, **kw)
+    d2['address_solved'] = 'code'
+    return d2
+
+
+def run_rows(pid, spec, prefixes, ctxs=CTXS_DEFAULT, regs_fn=None, prep_kw=None, after=None, keyfn=None, itpos_fn=None,
+             solve_addr=0.0):
     from vf import lockstep, scen, machine as M
     from vf.ref.step import tables
     rng = rng_for(pid, 'rows', spec['seed'], spec['shard'])
@@ -63,7 +116,21 @@ def run_rows(pid, spec, prefixes, ctxs=CTXS_DEFAULT, regs_fn=None, prep_kw=None,
         regs = regs_fn(rng) if regs_fn else [M.rand32(rng) for _ in range(15)]
         kw = dict(prep_kw(rng) if prep_kw else {})
         kw.setdefault('e', 1 if rng.random() < 0.25 else 0)       # CPSR.E: every family that touches memory sees both
+        if 'code' not in kw and rng.random() < 0.35:
+            # instruction placement: halfword-but-not-word aligned Thumb addresses, the first words of the address space and
+            # the last ones (PC-relative forms see Align(PC,4), wrap-around of PC + offset, link values)
+            kw['code'] = rng.choice(CODE_ADDRS_THUMB if kind != 'arm' else CODE_ADDRS_ARM)
+        if kind == 'arm' and 'code' in kw:
+            kw['code'] &= ~3
+        if kind == 'arm' and 'sp_low' not in kw and rng.random() < 0.12:
+            kw['sp_low'] = rng.randrange(1, 4)                    # ARM state: the SP may hold any value
         desc = scen.prepare(ctx, rng, kind, w, mode=mode, itpos=itpos, ns=ns, regs=regs, **kw)
+        if solve_addr and rng.random() < solve_addr:
+            kw2 = dict(kw, mode=mode, itpos=itpos, ns=ns)
+            desc = solve_address(ctx, rng, desc, kind, w, kw2)
+            ls.bump('addresses_solved_' + desc.get('address_solved', 'not'))
+        if rng.random() < 0.25:
+            control_noise(ctx, rng, desc)
         if mode == 'mon' and rng.random() < 0.25:
             ctx.cpu.registers.scr.ns = 1      # Monitor mode with SCR.NS = 1 (as set before a return to Non-secure state)
             desc['ns'] = 1
@@ -76,6 +143,31 @@ def run_rows(pid, spec, prefixes, ctxs=CTXS_DEFAULT, regs_fn=None, prep_kw=None,
     return ls.res
 
 
+def control_noise(ctx, rng, desc):
+    """exception-entry controls away from their reset values (vector base, handler instruction set and endianness, mask
+    rules, abort routing): what an instruction-caused exception (UNDEFINED, SVC, SMC, abort, Hyp trap) does under them"""
+    r = ctx.cpu.registers
+    cfg = ctx.cfg
+    r.sctlr.v = rng.randrange(2)
+    r.sctlr.te = rng.randrange(2) if cfg['arch_version'] >= 6 else 0
+    r.sctlr.ee = rng.randrange(2)
+    r.vbar.value = rng.choice([0, 0x20, 0x7000, 0xFFFFFFE0, 0x11000])
+    if cfg['have_security_ext']:
+        r.mvbar = rng.choice([0, 0x40, 0xFFFFFFE0, 0x6000])
+        r.scr.aw = rng.randrange(2)
+        r.scr.fw = rng.randrange(2)
+        r.scr.ea = rng.randrange(2)
+    if cfg['have_virt_ext']:
+        r.hvbar = rng.choice([0, 0x60, 0xFFFFFFE0, 0x5000])
+        r.hsctlr.te = rng.randrange(2)
+        r.hsctlr.ee = rng.randrange(2)
+        # HCR.TGE = 1 only where the architecture defines it: Non-secure User mode, MMU off (Non-secure PL1 modes are
+        # UNPREDICTABLE under TGE, and in Secure state the pseudocode's use of TGE for the fault syndrome is a known quirk)
+        r.hcr.tge = 1 if (rng.random() < 0.3 and not r.sctlr.m and desc.get('ns') == 1 and desc.get('mode') == 'usr') else 0
+    desc['control_noise'] = dict(sctlr='%#x' % r.sctlr.value, scr='%#x' % r.scr.value, vbar='%#x' % r.vbar.value,
+                                 mvbar='%#x' % r.mvbar, hvbar='%#x' % r.hvbar, hsctlr='%#x' % r.hsctlr.value, hcr='%#x' % r.hcr.value)
+
+
 def replay_rows(pid, data):
     from vf import lockstep, scen
     rp = data['replay']
@@ -83,8 +175,16 @@ def replay_rows(pid, data):
     ctx = ls.ctx(tuple(rp['ctx']))
     regs = [int(x, 16) for x in rp['regs']]
     scen.prepare(ctx, random.Random(1), rp['kind'], int(rp['word'], 16), mode=rp['mode'], ns=rp['ns'], regs=regs,
-                 code=int(rp.get('code', '0x10000'), 16) if isinstance(rp.get('code'), str) else scen.CODE)
+                 code=int(rp.get('code', '0x10000'), 16) if isinstance(rp.get('code'), str) else scen.CODE,
+                 sp_low=int(rp['regs'][13], 16) & 3)
     ctx.cpu.registers.cpsr.value = int(rp['cpsr'], 16)
+    r = ctx.cpu.registers
+    for k_, v in (rp.get('control_noise') or {}).items():
+        reg = getattr(r, k_)
+        if hasattr(reg, 'value'):
+            reg.value = int(v, 16)
+        else:
+            setattr(r, k_, int(v, 16))
     ls.judge(ctx, rp, 'replay')
     return dict(evaluations=1, violations=list(ls.viol.values()))
 
